@@ -124,7 +124,13 @@ def evaluate(case, world, *, caching=True, times=1, **kw):
     try:
         form = kw.get("form", "set_of")
         take_first, keep_first = kw.pop("take_first", 0), kw.pop("keep_first", False)
+        first_under_other_switch = kw.pop("first_under_other_switch", False)
         q, xs, sel_exprs = build(case, world, **kw)
+        if first_under_other_switch:    # an earlier COMPLETE evaluation while the caching switch was the other way round
+            (disable_caching if caching else enable_caching)()
+            for _ in q.evaluate():
+                pass
+            (enable_caching if caching else disable_caching)()
         if take_first:      # an earlier evaluation that is left after a few rows: closed, or suspended and kept alive
             it = iter(q.evaluate())
             for _ in range(take_first):
